@@ -9,7 +9,7 @@ reflection coefficients) and pminvar.  N up to 128, m up to 16: ObsC16.tla.
 import numpy as np
 
 from .. import core, material as M, tlc, obs
-from ..kern_util import call_guard, cmp_vec
+from ..kern_util import call_guard, cmp_vec, live_object_dev
 
 
 def eval_form(quad, nfft):
@@ -71,6 +71,15 @@ def replay_state(chk, st, cplx):
             if bad:
                 chk.violation('C16:pminvar:%s:psd' % mode, 'pminvar(x=%s, m=%d, NFFT=%d): %s' % (xa.tolist(), m, nfft, bad),
                               {'x': xa, 'order': m, 'NFFT': nfft, 'expect': e2})
+    # the class on a second computation: after order / NFFT / sampling were re-assigned on the live object it
+    # returns what a fresh object with those values returns
+    if len(xa) >= 5:
+        ok, dev = call_guard(live_object_dev, lambda **kw: pminvar(xa.copy(), **dict({'order': m, 'NFFT': 8}, **kw)),
+                             [('ar_order', 2 if m != 2 else 3, 'order'), ('NFFT', 9, 'NFFT'), ('sampling', 2.0, 'sampling'),
+                              ('ar_order', m, 'order')])
+        if not ok or (dev is not None and dev > 1e-7):
+            chk.violation('C16:pminvar:%s:live-object' % mode, 'pminvar after re-assigning ar_order / NFFT / sampling differs from a fresh object (%r)' % (dev,),
+                          {'x': xa, 'order': m})
     chk.replayed += 1
     chk.count('minvar-' + mode, 'replayed')
     if m == 3:
